@@ -9,9 +9,13 @@ import (
 	"context"
 
 	corev1 "k8s.io/api/core/v1"
+	kerrors "k8s.io/apimachinery/pkg/api/errors"
 	metav1 "k8s.io/apimachinery/pkg/apis/meta/v1"
 	"k8s.io/apimachinery/pkg/runtime"
+	"k8s.io/apimachinery/pkg/runtime/schema"
 	"sigs.k8s.io/controller-runtime/pkg/client"
+
+	xpv1 "github.com/crossplane/crossplane-runtime/apis/common/v1"
 
 	v1 "github.com/crossplane/crossplane/apis/apiextensions/v1"
 	zz "github.com/crossplane/crossplane/internal/zzverif"
@@ -96,4 +100,68 @@ func HarnessC09Compose() {
 	}
 	zz.Assert("no-other-connection-detail", len(res.ConnectionDetails) <= 2*n)
 	zz.Observe("details", len(res.ConnectionDetails))
+}
+
+// zzColdCache is an informer cache that has not seen one object yet: reads of
+// it fall through to the API server.
+type zzColdCache struct {
+	*kube.Store
+	miss string
+}
+
+func (c *zzColdCache) Get(ctx context.Context, key client.ObjectKey, obj client.Object, opts ...client.GetOption) error {
+	if key.Name == c.miss {
+		return kerrors.NewNotFound(schema.GroupResource{Resource: "composed"}, key.Name)
+	}
+	return c.Store.Get(ctx, key, obj, opts...)
+}
+
+// HarnessC09Observed: what a function pipeline is shown. A resource that the
+// XR references but another owner controls - read from the cache or, on a
+// cache miss, from the API server - is not part of the observed state, so
+// neither it nor the content of its connection secret can end up among the
+// XR's connection details.
+//
+//gosym:harness
+//gosym:cover foreign-referenced cache-miss own-observed
+func HarnessC09Observed() {
+	s := kube.New()
+	s.Register(&corev1.Secret{}, &corev1.SecretList{}, "", "Secret")
+	foreign := zz.Str("foreign.uid")
+	zz.Assume(foreign != zzXRUIDc)
+	zz.Assume(foreign != "")
+	fo := zzComposedObject(zzXRName+"-foreign", zzResNames[0], zzOwnForeign, foreign)
+	fo.SetWriteConnectionSecretToReference(&xpv1.SecretReference{Name: "foreign-conn", Namespace: "ns"})
+	s.Put(fo)
+	s.Put(&corev1.Secret{ObjectMeta: metav1.ObjectMeta{Name: "foreign-conn", Namespace: "ns"}, Data: map[string][]byte{"password": []byte("theirs")}})
+	own := zzComposedObject(zzXRName+"-own", zzResNames[1], zzOwnOurs, "")
+	s.Put(own)
+	xr := zzNewXRObject()
+	xr.Object["spec"] = map[string]any{"resourceRefs": []any{
+		map[string]any{"apiVersion": "example.org/v1", "kind": zzCDKind, "name": zzXRName + "-own"},
+		map[string]any{"apiVersion": "example.org/v1", "kind": zzCDKind, "name": zzXRName + "-foreign"},
+	}}
+	s.Put(xr)
+	zz.Cover("foreign-referenced")
+	var cached client.Client = s
+	if zz.Bool("cache.missesForeignObject") {
+		zz.Cover("cache-miss")
+		cached = &zzColdCache{Store: s, miss: zzXRName + "-foreign"}
+	}
+	runner := &zzRunner{steps: []zzStep{{desired: []bool{zz.Bool("desired0"), true}}}}
+	c := NewFunctionComposer(cached, s, runner)
+	_, _ = c.Compose(context.Background(), zzReadXR(s), CompositionRequest{Revision: zzRevision(1)})
+	if len(runner.calls) == 0 {
+		return
+	}
+	obs := runner.calls[0].observed.GetResources()
+	_, seesForeign := obs[zzResNames[0]]
+	zz.Assert("resource-of-another-owner-is-not-observed", !seesForeign)
+	if o, ok := obs[zzResNames[1]]; ok {
+		zz.Cover("own-observed")
+		_ = o
+	}
+	for _, r := range obs {
+		zz.Assert("no-connection-detail-of-another-owners-resource-observed", string(r.GetConnectionDetails()["password"]) != "theirs")
+	}
 }
